@@ -451,7 +451,7 @@ fn generate_query_arg(query_params: &TokenStream, arg: &Arg<ParamArg>) -> TokenS
 fn generate_header_arg(parts: &TokenStream, arg: &Arg<ParamArg>) -> TokenStream {
     let name = &arg.ident;
     let header = &arg.params.name;
-    let param = arg.ident.to_string();
+    let log_as = arg.log_as();
     let decoder = arg.params.decoder.as_ref().map_or_else(
         || quote!(conjure_http::server::FromStrDecoder),
         |d| quote!(#d),
@@ -461,7 +461,7 @@ fn generate_header_arg(parts: &TokenStream, arg: &Arg<ParamArg>) -> TokenStream 
             &self.runtime,
             &#parts,
             #header,
-            #param,
+            #log_as,
         )?;
     }
 }
